@@ -1,5 +1,6 @@
 """Two-player extended nonlocal game."""
 
+import itertools
 from collections import defaultdict
 
 import cvxpy
@@ -103,20 +104,16 @@ class ExtendedNonlocalGame:
         dim_x, dim_y, alice_out, bob_out, alice_in, bob_in = self.pred_mat.shape
 
         max_unent_val = float("-inf")
-        for a_out in range(alice_out):
-            for b_out in range(bob_out):
+        # Maximize over all deterministic answer functions a = f(x) and b = g(y).
+        for a_fn in itertools.product(range(alice_out), repeat=alice_in):
+            for b_fn in itertools.product(range(bob_out), repeat=bob_in):
                 p_win = np.zeros([dim_x, dim_y], dtype=complex)
                 for x_in in range(alice_in):
                     for y_in in range(bob_in):
-                        p_win += self.prob_mat[x_in, y_in] * self.pred_mat[:, :, a_out, b_out, x_in, y_in]
+                        p_win += self.prob_mat[x_in, y_in] * self.pred_mat[:, :, a_fn[x_in], b_fn[y_in], x_in, y_in]
 
-                rho = cvxpy.Variable((dim_x, dim_y), hermitian=True)
-
-                objective = cvxpy.Maximize(cvxpy.real(cvxpy.trace(p_win.conj().T @ rho)))
-
-                constraints = [cvxpy.trace(rho) == 1, rho >> 0]
-                problem = cvxpy.Problem(objective, constraints)
-                unent_val = problem.solve()
+                # The optimal referee state is a top eigenvector of the averaged operator.
+                unent_val = np.linalg.eigvalsh((p_win + p_win.conj().T) / 2)[-1]
                 max_unent_val = max(max_unent_val, unent_val)
         return max_unent_val
 
